@@ -28,6 +28,10 @@ def schmidt(v, d, L, k):
 def judge_compress(ctx, psi, v0, d, L, tol, mode):
     old_dims = list(psi.bond_dims)
     nrm0 = float(np.linalg.norm(v0))
+    # comparisons are relative to the size of the state (no absolute floor): rounding level ~ product of the tensor norms
+    tscale = float(np.prod([np.linalg.norm(a) for a in psi.A]))
+    eps1 = 1e-10 * nrm0 + 1e-12 * tscale
+    eps2 = 1e-10 * nrm0 ** 2 + 1e-12 * tscale ** 2
     res = psi.compress(tol, mode=mode)
     ctx.calls += 1
     if not ctx.check(isinstance(res, tuple) and len(res) == 2, 'returns_norm_and_scale', type(res)):
@@ -37,7 +41,7 @@ def judge_compress(ctx, psi, v0, d, L, tol, mode):
     new_dims = [A[0].shape[1]] + [a.shape[2] for a in A]
     v1 = dense.mps_to_vector(A)
     ctx.obs(v1, np.float64(nrm), np.float64(scale))
-    ctx.check(abs(nrm - nrm0) <= 1e-10 * (1 + nrm0), 'returns_norm_of_original', f'{nrm} vs {nrm0}')
+    ctx.check(abs(nrm - nrm0) <= eps1, 'returns_norm_of_original', f'{nrm} vs {nrm0}')
     lo = np.sqrt(max(0.0, 1 - L * tol))
     ctx.check(lo - 1e-10 <= scale <= 1 + 1e-10, 'scale_within_bounds', f'scale={scale} lower={lo}')
     ctx.check(abs(np.linalg.norm(v1) - 1) <= 1e-10, 'normalized_after', np.linalg.norm(v1))
@@ -48,10 +52,11 @@ def judge_compress(ctx, psi, v0, d, L, tol, mode):
     # error identity, squared form
     err2 = float(np.sum(np.abs(nrm * scale * v1 - v0) ** 2))
     ref2 = nrm0 ** 2 * (1 - scale ** 2)
-    ctx.check(abs(err2 - ref2) <= 1e-10 * (1 + nrm0 ** 2), 'error_identity', f'err2={err2:.6e} nrm^2(1-scale^2)={ref2:.6e}')
-    ctx.check(err2 <= nrm0 ** 2 * L * tol + 1e-10 * (1 + nrm0 ** 2), 'error_bound', f'{err2} > {nrm0**2 * L * tol}')
+    ctx.check(abs(err2 - ref2) <= eps2, 'error_identity', f'err2={err2:.6e} nrm^2(1-scale^2)={ref2:.6e}')
+    ctx.check(err2 <= nrm0 ** 2 * L * tol + eps2, 'error_bound', f'{err2} > {nrm0**2 * L * tol}')
     if tol == 0:
-        ctx.close(nrm * scale * v1, v0, 'zero_tolerance_exact', scale=nrm0)
+        e0 = float(np.max(np.abs(nrm * scale * v1 - v0)))
+        ctx.check(e0 <= eps1, 'zero_tolerance_exact', f'err={e0:.3e} norm={nrm0:.3e}')
     # first truncated bond
     if L >= 2:
         k = 1 if mode == 'left' else L - 1
@@ -73,7 +78,7 @@ def _sector_cases(Ls, qds, Ds):
     for L in Ls:
         for qd in qds:
             for (_, qD) in palette.mps_structs(L, qd, Ds):
-                for kind in ('complex', 'real', 'fortran'):
+                for kind in ('complex', 'real', 'fortran', 'tiny', 'large'):
                     yield ['sector', qd, qD, kind]
 
 
@@ -172,7 +177,7 @@ def run_designed_case(case, ctx):
 def _vector_cases(tier):
     for d in (2, 3):
         for n in (1, 2, 3, 4):
-            for vk in ('complex', 'real', 'product', 'flat', 'staircase'):
+            for vk in ('complex', 'real', 'product', 'flat', 'staircase', 'tiny', 'large'):
                 yield ['vector', d, n, vk]
 
 
@@ -181,6 +186,8 @@ def run_vector_case(case, ctx):
     rng = ctx.rng(0)
     if vk in ('complex', 'real'):
         v = palette.generic(rng, d ** n, vk)
+    elif vk in ('tiny', 'large'):
+        v = palette.generic(rng, d ** n, 'complex') * 2.0 ** (-60 if vk == 'tiny' else 60)
     else:
         v = dense.mps_to_vector(designed_state(rng, vk, n, d, d))
     nv = float(np.linalg.norm(v))
@@ -196,9 +203,9 @@ def run_vector_case(case, ctx):
         w = dense.mps_to_vector(m.A)
         ctx.obs(w)
         err2 = float(np.sum(np.abs(w - v) ** 2))
-        ctx.check(err2 <= n * tol * nv ** 2 + 1e-10 * (1 + nv ** 2), 'from_vector_relative_error_bound', f'tol={tol} err2={err2} bound={n * tol * nv**2}')
+        ctx.check(err2 <= n * tol * nv ** 2 + 1e-10 * nv ** 2, 'from_vector_relative_error_bound', f'tol={tol} err2={err2} bound={n * tol * nv**2}')
         if tol == 0:
-            ctx.close(w, v, 'from_vector_zero_tolerance_exact')
+            ctx.close(w / nv, v / nv, 'from_vector_zero_tolerance_exact')
         if ctx.fails:
             return
 
@@ -248,5 +255,5 @@ def spaces(tier, seed):
               bounds={'kinds': ['product', 'flat', 'staircase'], 'L': [2, 3, 4], 'd': [2, 3, 4], 'zero_padding': [0, 1],
                       'tols': 'TOLS + {1/4, 1/8, 2^-(d-1), 1/d, 0.2499, 0.2501} within [0,1/L)'}),
         Space('from_vector', core.chunked(_vector_cases(tier), 2), run_case=run_vector_case, sig=sig,
-              bounds={'d': [2, 3], 'n': [1, 2, 3, 4], 'kinds': ['complex', 'real', 'product', 'flat', 'staircase'], 'tols': TOLS + [0.25, 0.5, 0.9]}),
+              bounds={'d': [2, 3], 'n': [1, 2, 3, 4], 'kinds': ['complex', 'real', 'product', 'flat', 'staircase', 'tiny', 'large'], 'tols': TOLS + [0.25, 0.5, 0.9]}),
     ]
